@@ -205,6 +205,21 @@ def discharge(ctx, s, scope=None):
             atoms = path_atoms(ctx, body, bb)
         return atoms
 
+    # -- an assertion whose condition a dominating check has already established: `if a.len() != b.len() { return Err(..) }` ..
+    #    `debug_assert_eq!(a.len(), b.len())`.  The panic is reached through the arm of the nearest controlling switch on which the
+    #    asserted condition is false; if the condition's atoms are among the facts that hold at that switch, the arm is dead.
+    if kind == 'panic':
+        pcs = ctx.path_conditions(body, bb)
+        if pcs:
+            sw, cond, arms, targets = pcs[0]
+            if cond.tag != 'discr' and set(arms) <= {'0', 'otherwise'} and len(arms) == 1:
+                asserted = bool_atom(cond, positive=(arms[0] == '0'))      # the panic arm is taken when the condition has the other value
+                if asserted and not any(a[0] == 'unknown' for a in asserted):
+                    have = path_atoms(ctx, body, sw)
+                    from .common import _match_form
+                    have_n = {_match_form(a) for a in have} | set(have)
+                    if all(a in have_n or _match_form(a) in have_n for a in asserted):
+                        return 'assertion of %s, which a dominating check has established' % (asserted,)
     # -- dead code under a constant argument: the site is only reachable when parameter k is Some, and every caller
     #    in scope passes None
     if scope is not None:
